@@ -48,6 +48,9 @@ type c08Seq struct {
 	gcMode string
 	r      *verifx.Rng
 	judge  bool // print rd lines
+	// afterExec, when set, runs right after the operation returned and before anything is read back
+	// (used to disarm injected faults)
+	afterExec func()
 }
 
 func newC08Seq(ctx context.Context, out *verifx.Out, k *c08Stack, r *verifx.Rng, gcMode string) *c08Seq {
@@ -231,6 +234,10 @@ func (q *c08Seq) op(line string) {
 			q.c.exec(line)
 		}
 	}()
+	if q.afterExec != nil {
+		q.afterExec()
+		q.afterExec = nil
+	}
 	a := verifx.Must(q.k.dump(q.ctx, true))
 	isNew := q.newPids(a)
 	q.ords.learn(a)
@@ -359,6 +366,10 @@ type c08Gen struct {
 // read-back anyway) and sometimes an UploadPartCopy, which s3hGen does not generate.
 func (cg *c08Gen) next() string {
 	g := cg.g
+	if len(g.c.made) == 1 && g.nput == 0 && !g.c.made["b1"] {
+		g.c.made["b1"] = true
+		return "op mkb b1" // most histories use both buckets
+	}
 	if len(g.mpus) > 0 && g.nput > 0 && cg.r.Chance(1, 9) {
 		i := cg.r.Intn(len(g.mpus))
 		for j := len(g.mpus) - 1; j >= 0; j-- {
@@ -374,7 +385,17 @@ func (cg *c08Gen) next() string {
 		} else {
 			u.parts = append(u.parts, n)
 		}
-		return fmt.Sprintf("op uppc %s %s %s %s %d %d svid=%s", g.bk(), g.key(), u.b, u.k, i, n, g.vidArg())
+		sb, sk := g.bk(), g.key()
+		if len(g.c.lastEtag) > 0 && cg.r.Chance(4, 5) { // prefer a source that was written
+			ks := make([]string, 0, len(g.c.lastEtag))
+			for bk := range g.c.lastEtag {
+				ks = append(ks, bk)
+			}
+			sort.Strings(ks)
+			bk := strings.SplitN(ks[cg.r.Intn(len(ks))], "/", 2)
+			sb, sk = bk[0], bk[1]
+		}
+		return fmt.Sprintf("op uppc %s %s %s %s %d %d svid=%s", sb, sk, u.b, u.k, i, n, g.vidArg())
 	}
 	for {
 		l := g.next()
